@@ -3,7 +3,8 @@
 S=/verif/seeded/$1; TIER=$2; shift 2
 git -C /repo status --porcelain --untracked-files=no | grep -q . && { echo "/repo dirty"; exit 2; }
 git -C /repo apply $S/patch.diff || exit 2
-trap 'git -C /repo checkout -- .' EXIT
+# undo, and rebuild the harness from the restored tree (a stale seeded binary must never be used with VERIF_NO_BUILD=1)
+trap 'git -C /repo checkout -- . ; (cd /verif/harness && CARGO_NET_OFFLINE=true cargo build --release --offline > /dev/null 2>&1)' EXIT
 : > $S/result_$TIER.txt
 for c in "$@"; do
   out=$(cd /verif && VERIF_SEED=${VERIF_SEED:-1} timeout 7200 ./check $c --tier $TIER 2>/dev/null)
